@@ -16,6 +16,8 @@ import (
 
 const modPath = "github.com/bytemare/secp256k1"
 
+var clientsDir = "/verif/clients"
+
 type Pkg struct {
 	Path  string
 	Dir   string
@@ -107,6 +109,25 @@ func LoadProgram(root string) (*Program, error) {
 				for _, c := range cg.List {
 					if strings.HasPrefix(c.Text, "//@") {
 						prog.Contract = append(prog.Contract, contractLine{p, strings.TrimPrefix(c.Text, "//@"), prog.Fset.Position(c.Pos()).String()})
+					}
+				}
+			}
+		}
+		if d.dir == "." {
+			// lemma programs (clients of the API, verified against the contracts) live outside /repo
+			cl, _ := filepath.Glob(filepath.Join(clientsDir, "*.go"))
+			sort.Strings(cl)
+			for _, cf := range cl {
+				f, err := parser.ParseFile(prog.Fset, cf, nil, parser.ParseComments)
+				if err != nil {
+					return nil, err
+				}
+				p.Files = append(p.Files, f)
+				for _, cg := range f.Comments {
+					for _, c := range cg.List {
+						if strings.HasPrefix(c.Text, "//@") {
+							prog.Contract = append(prog.Contract, contractLine{p, strings.TrimPrefix(c.Text, "//@"), prog.Fset.Position(c.Pos()).String()})
+						}
 					}
 				}
 			}
